@@ -173,7 +173,7 @@ Fixpoint diag_run (cfg : config) (st : state) (evs : list (event * obs * option 
 Definition diag_seq (c : seq_case) := diag_run (fst c) (init (fst c)) (snd c) 0%Z.
 """
 
-TOL = 1e-9
+TOL = 1e-12  # Boundary region: a few thousand ulps, far above interpolation round-off (~1e-14), far below 1e-6
 TYPES = ["promotion", "pasha", "cost_promotion", "rush_promotion"]
 VARIANT = {"promotion": "VPromotion", "pasha": "VPasha", "cost_promotion": "VCost", "rush_promotion": "VRush"}
 
@@ -197,6 +197,12 @@ class OneHot:
 # case generation (open loop: ops are interpreted against whatever the scheduler answers)
 # ------------------------------------------------------------------------------------------------
 def gen_metric(rng, style):
+    if style == "tiny":
+        # tiny magnitudes (uniformly scaled grid): absolute tolerances must not decide
+        return rng.randint(1, 9) * 1e-9
+    if style == "neartie":
+        # near ties: distinct values 2e-6 (relative) apart
+        return 0.5 * (1.0 + 2e-6 * rng.randint(0, 6))
     if style == "grid":
         return float(rng.randint(1, 6))
     if style == "grid64":
@@ -236,7 +242,7 @@ def gen_spec(rng, force_type=None):
     spec["tiny_space"] = rng.random() < 0.08
     spec["searcher_data"] = rng.choice(["rungs", "rungs", "rungs", "all", "rungs_and_last"])
     spec["myopic"] = rng.random() < 0.5
-    style = rng.choice(["grid", "grid", "grid64", "float"])
+    style = rng.choice(["grid", "grid", "grid64", "float", "tiny", "neartie"])
     spec["style"] = style
     malformed = rng.random() < 0.15
     ops = []
@@ -302,7 +308,7 @@ class Checker:
         return a < b if self.is_min else a > b
 
     def cmp(self, a, c, le=None):
-        """'yes' a no worse than c / 'no' / 'boundary' (relative 1e-9)"""
+        """'yes' a no worse than c / 'no' / 'boundary' (relative 1e-12)"""
         if abs(a - c) <= TOL * max(abs(a), abs(c), 1e-300):
             return "boundary"
         ok = (a <= c) if (le if le is not None else self.is_min) else (a >= c)
@@ -614,7 +620,7 @@ def run_spec(spec, strict=False, max_trials=None):
     rungs = sorted((int(l), float(pq)) for (l, _, pq) in infos)
     levels = [l for l, _ in rungs]
     chk = Checker(spec, levels, max_t, nb)
-    cfg_term = "(mkC %s %s %s %s %s %s %s %s %s (1 # 1000000000) %s)" % (
+    cfg_term = "(mkC %s %s %s %s %s %s %s %s %s (1 # 1000000000000) %s)" % (
         VARIANT[spec["type"]], "Min" if spec["mode"] == "min" else "Max", zlit(max_t),
         lst(["(%s, %s)" % (zlit(l), q(pq)) for l, pq in rungs]), natlit(nb), blit(spec["per_bracket"]),
         blit(spec["mra"]), blit(spec["cost_attr"]), zlit(spec["nthr"]), blit(spec.get("searcher_data", "rungs") == "rungs"))
@@ -897,6 +903,8 @@ EXH_TABLES = [
     [[1, 1, 1], [2, 2, 2], [3, 3, 3]],   # stable ranking
     [[3, 1, 2], [1, 3, 3], [2, 2, 1]],   # ranking changes between levels
     [[1, 1, 1], [1, 1, 1], [2, 2, 2]],   # ties
+    [[1e-9, 1e-9, 1e-9], [5e-9, 5e-9, 5e-9], [9e-9, 9e-9, 9e-9]],              # tiny magnitudes
+    [[0.5, 0.5, 0.5], [0.500004, 0.500004, 0.500004], [0.500008, 0.500008, 0.500008]],  # near ties
 ]
 
 
@@ -952,7 +960,7 @@ def run(ctx, replay=None):
         if ctx.tier == "thorough":
             exh = exhaustive_specs(ctx, depth=int(os.environ.get("VERIF_C04_EXH_DEPTH", "12")), cap=30000)
             ctx.notes.append("bounded-exhaustive stream (plain promotion, <=3 trials, 3 workers, rung levels [1,2,3], "
-                             "3 metric tables x {min+checkpointing, max+scratch}): %d maximal interleavings" % len(exh))
+                             "5 metric tables x {min+checkpointing, max+scratch}): %d maximal interleavings" % len(exh))
             specs += exh
     terms, meta = [], []
     hyp_terms, hyp_meta = [], []
@@ -994,7 +1002,7 @@ def run(ctx, replay=None):
             hyp_meta.append(len(meta) - 1)
         ctx.sample(dict(spec={k: v for k, v in spec.items() if k != "ops"}, n_ops=len(spec["ops"]),
                         rungs=res["config"], first_events=res["events"][:12], stats=st))
-    ctx.notes.append("Boundary decisions seen by the checker (|value - cutoff| <= 1e-9 relative, either answer accepted): %d"
+    ctx.notes.append("Boundary decisions seen by the checker (|value - cutoff| <= 1e-12 relative, either answer accepted): %d"
                      % boundary_total)
     if terms:
         for i in ctx.coq_bad_cases("seq", IMPORTS, PRELUDE, "chk_seq", terms, shard=24):
